@@ -88,7 +88,7 @@ def var_sources(f):
             elif n[0] == "var":
                 if n[2] == "param":
                     out.add("param")
-                elif depth < 3:
+                if depth < 3:
                     if n[1] not in memo:
                         memo[n[1]] = set()
                         s = set()
